@@ -45,7 +45,11 @@ impl Check for C02 {
         let (bytes, class) = if via_writer {
             // writer output of a C01-style case
             doc.noncanonical_pct = 0;
-            let d = crate::gen::gen_doc(&mut rng, &spec, &doc);
+            let mut d = crate::gen::gen_doc(&mut rng, &spec, &doc);
+            if rng.chance(1, 2) {
+                // master bodies of exactly 2^(7k)-1 bytes are where size re-encoding can go wrong
+                crate::gen::pad_to_boundary(&mut rng, &spec, &mut d);
+            }
             let mut ops = Vec::new();
             wcases::present(&mut rng, &d, &PresentOpts::default(), &mut ops);
             let wt = run_writer(&spec, &ops, &WScript::default(), true);
